@@ -61,8 +61,12 @@ let () = Modes.register "bind" (fun records mismatches ->
 
 (* ------------------------------------------------------------------------------------------------
    Mode `abandon-sim` -- MODEL-SIDE TESTING ONLY (supporting test of the C09 model, coq/Model/Abandon.v).
-   It supports the theorems of Properties/C09abandon.v (it shows that they are not vacuous and exercises
-   the two open statements of Proofs/AbandonOpen.v); it never replaces them and says nothing about /repo.
+   It supports the theorems of Properties/C09abandon.v (it shows that they are not vacuous; the two statements it
+   exercised while they were open -- abandoned_count at quiescence, the forced collect -- are theorems now:
+   C09_abandoned_count_quiescent, C09_collect_frees_dead_abandoned[_gen]); it never replaces them and says nothing
+   about /repo.  The forced collect of the first collector is collect_prog (index order, as many list visits as the
+   combined list is long), that of the second is collect_prog_of with a rotated visit order, a random OVisitLock and
+   os_list_count = os_count (the entries of its own sub-process).
    Input: lines `<seed> <number of programs> [<max steps>]`.  Every program: 2-5 segments (arena / OS list,
    sub-process 1 or 2, an owner, 0-3 live blocks), 3-6 threads (the last thread of each sub-process is the
    collector); owners free locally and exit (abandon everything they own), the others free remotely with
@@ -164,8 +168,15 @@ let sim_one (seed : int) (maxsteps : int) (fail : string -> unit) : int * int =
   (* forced collects *)
   let collects = ref 0 in
   L.iter (fun (c, sp) ->
-    let nos = L.length !st.A.os_list in
-    st := append_prog !st c (A.collect_prog (nat_of_int p.nsegs) (nat_of_int nos));
+    let general = (sp = 2) in
+    let nos = if general then int_of_nat (A.os_count !st (n_i sp)) else L.length !st.A.os_list in
+    let prog =
+      if general then begin
+        let r = Random.int p.nsegs in
+        let order = L.init p.nsegs (fun k -> nat_of_int ((k + r) mod p.nsegs)) in
+        A.collect_prog_of order (Random.bool ()) (nat_of_int nos)
+      end else A.collect_prog (nat_of_int p.nsegs) (nat_of_int nos) in
+    st := append_prog !st c prog;
     st := A.run_solo (nat_of_int (16 * (p.nsegs + nos + 2))) !st (nat_of_int c);
     incr collects;
     if not (A.inv_b !st) then fail (Printf.sprintf "inv_b-collect seed=%d" seed);
